@@ -188,6 +188,22 @@ def rank_trace(obj_factory, ts, cps, tref, rng, h, s, probes, label):
                     o, val = o3, val3
             evs.append({'op': 'eval', 'prop': p, 't': rank[T], 'obs': o})
             side.append((p, T, val))
+    # temperatures handed over as one integer-typed array answer like the same temperatures one by one
+    whole = [T for T in probes if T == int(T) and T > 0]
+    if len(whole) >= 2 and kind != 'error':
+        vals = dict(((p_, T_), v_) for (p_, T_, v_) in side[1:])
+        for p in ('Cp', 'H', 'S'):
+            inside = [T for T in whole if vals.get((p, T)) is not None]      # answered one by one
+            if len(inside) < 2:
+                continue
+            k3, arr, w3 = call(getattr(obj, GETTERS[p]), np.array([int(T) for T in inside]))
+            if k3 == 'error' or np.ndim(arr) != 1 or len(arr) != len(inside):
+                continue          # array arguments are not part of the statement: only answers are compared
+            for T, a_ in zip(inside, arr):
+                ref = vals.get((p, T))
+                if ref is not None and abs(float(a_) - ref) > 1e-12 * max(1.0, abs(ref)):
+                    idx = [i for i, sd in enumerate(side) if sd and sd[0] == p and sd[1] == T][0]
+                    side[idx] = (p, T, float(a_))
     return evs, side, (obj, temps)
 
 
@@ -284,4 +300,7 @@ def group_probes(c, rng_):
             if lo < ts[0]:
                 pr.add((lo + ts[0]) / 2)
     pr.update([0.0, -10.0, 5000.0])
+    # right beside the reference temperature (a correlation without Cp data answers there with the warning)
+    tr = float(c.T_ref)
+    pr.update([tr + 0.1, tr - 0.1, tr + 1e-6, np.nextafter(tr, 1e9)])
     return sorted(float(x) for x in pr)
